@@ -184,7 +184,10 @@ def parse_sanitizer(stderr_text, repo=REPO):
             if m:
                 kind = "ubsan:" + classify_ub(m.group(4))
                 msg = m.group(4)
+                if kind == "ubsan:signed-integer-overflow":
+                    kind += "[" + overflow_class(msg) + "]"
                 site = "%s:%s" % (rel(m.group(1), repo_s), m.group(2))
+                ub_path, ub_line = os.path.normpath(m.group(1)), int(m.group(2))
             else:
                 kind = "asan:" + a.group(1)
                 msg = ln.strip()
@@ -205,13 +208,68 @@ def parse_sanitizer(stderr_text, repo=REPO):
                 elif _UB_RE.match(lines[j]) or _ASAN_RE.search(lines[j]):
                     break
                 j += 1
+            if m:
+                fn = enclosing_function(ub_path, ub_line) or fn
             blocks.append({"kind": kind, "site": site, "function": fn, "message": msg})
         i += 1
     return blocks
 
 
+_OVF_RE = re.compile(r"signed integer overflow: (-?\d+) ([*+-]) (-?\d+) cannot")
+
+
+def overflow_class(msg):
+    """Mechanism class of a signed-overflow report, from its operands (so that a different
+    overflow at an already known site is not absorbed by the known finding)."""
+    if "negation of -2147483648" in msg:
+        return "negate-int32-min"
+    m = _OVF_RE.search(msg)
+    if not m:
+        return "other"
+    a, op, b = int(m.group(1)), m.group(2), int(m.group(3))
+    if op == "*":
+        if 86400 in (a, b):
+            other = b if a == 86400 else a
+            return "days-to-seconds:partial-day-at-int32-edge" if abs(other) <= 24856 else "days-to-seconds:date-beyond-int32-seconds"
+        return "other-product"
+    small = min(abs(a), abs(b))
+    if 946684800 in (abs(a), abs(b)):
+        return "unix-epoch-shift-at-int32-edge"
+    if 2451545 in (abs(a), abs(b)):
+        return "julian-day-shift-at-int32-edge"
+    if small <= 32768 * 60:
+        return "small-addend-at-int32-edge"      # a UTC offset (<= 32768 min) or a time of day
+    return "other-sum"
+
+
 def rel(path, repo_s):
+    path = os.path.normpath(path)
     return path[len(repo_s) + 1:] if path.startswith(repo_s + "/") else path
+
+
+_FUNC_RE = re.compile(r"^\s*(?:static\s+|inline\s+|virtual\s+|explicit\s+|const\s+)*[\w:<>\*&]+(?:\s+[\w:<>\*&]+)*\s+[\*&]?(~?\w+)\s*\([^;]*$")
+_NOT_FUNC = {"if", "for", "while", "switch", "return", "else", "do", "sizeof", "catch"}
+_src_cache = {}
+
+
+def enclosing_function(path, line):
+    """Name of the function containing path:line, found by scanning the source upwards.
+    Deterministic for a given tree, unlike symbolised frames (which depend on inlining)."""
+    try:
+        lines = _src_cache.setdefault(path, Path(path).read_text(errors="replace").splitlines())
+    except OSError:
+        return None
+    i = min(line, len(lines)) - 1
+    while i >= 0:
+        ln = lines[i]
+        m = _FUNC_RE.match(ln)
+        if m and m.group(1) not in _NOT_FUNC and not ln.strip().startswith(("//", "*", "return", "?", ":")):
+            return m.group(1)
+        m2 = re.match(r"^\s*(?:explicit\s+)?(~?\w+)\s*\([^;]*\)?\s*(?::|\{)?\s*$", ln)   # constructors
+        if m2 and m2.group(1) not in _NOT_FUNC and m2.group(1)[:1].isupper() and "(" in ln and not ln.strip().startswith(("//", "*")):
+            return m2.group(1)
+        i -= 1
+    return None
 
 
 def classify_ub(msg):
@@ -429,8 +487,13 @@ class Verdict:
             ev["coverage"]["notes"] = self.notes
         evdir = VERIF / "evidence"
         evdir.mkdir(exist_ok=True)
+        if not cov.get("samples"):
+            cov["samples"] = [{"note": "no sample was emitted by the drivers (they died or found nothing to sample)"}]
         (evdir / (self.prop + ".json")).write_text(json.dumps(ev, indent=1, default=_jd) + "\n")
-        validate_evidence(ev)
+        try:
+            validate_evidence(json.loads(json.dumps(ev, default=_jd)))
+        except Exception as e:  # evidence that does not validate is no evidence: inconclusive, never silent
+            self.inconclusive.append("evidence file does not validate: %s" % str(e).splitlines()[0])
         if new:
             rdir = VERIF / "replay"
             rdir.mkdir(exist_ok=True)
